@@ -25,6 +25,7 @@ import multiprocessing as mp
 import os
 import subprocess
 import sys
+import threading
 import time
 import traceback
 from collections import Counter, OrderedDict
@@ -140,10 +141,26 @@ class Run:
         return self._pool
 
     def close(self):
-        if self._pool is not None:
-            self._pool.terminate()
-            self._pool.join()
-            self._pool = None
+        """Abandon the pool.  Pool.terminate() can block for ever when the task feeder still holds a full pipe (seen once in
+        about 250 early-stopped runs), so it runs under a watchdog and the workers are killed directly if it does not return."""
+        p, self._pool = self._pool, None
+        if p is None:
+            return
+        procs = list(getattr(p, "_pool", None) or [])
+
+        def _stop():
+            p.terminate()
+            p.join()
+
+        t = threading.Thread(target=_stop, daemon=True)
+        t.start()
+        t.join(30)
+        if t.is_alive():
+            for w in procs:
+                try:
+                    w.kill()
+                except Exception:  # noqa: BLE001
+                    pass
 
     def time_left(self):
         return self.budget_s - (time.time() - self.t0)
@@ -156,6 +173,12 @@ class Run:
         complete = True
         t_layer = time.time()
         nsamp = 0
+        # VERIF_STOP_ON_VIOLATION=1 (used by tools/recheck_seeded.py only): once an unlisted violation has been found the answer
+        # of a regression run is known; the remaining cases are skipped and the run is reported as not exhaustive
+        stop_early = bool(os.environ.get("VERIF_STOP_ON_VIOLATION"))
+        if stop_early and self.viol:
+            self.layers.append({"layer": name, "cases": 0, "planned": total, "completed": False, "wall_s": 0.0})
+            return False
         it = _chunks(cases, chunk)
         if inline or self.workers == 1:
             _worker_init_inline()
@@ -171,7 +194,7 @@ class Run:
                 if r.get("sample") is not None and nsamp < max_samples:
                     self.samples.append({"layer": name, **({"case": r["_case"]} if not isinstance(r["sample"], dict) or "case" not in r["sample"] else {}), "observed": r["sample"]})
                     nsamp += 1
-            if self.time_left() < 0:
+            if self.time_left() < 0 or (stop_early and self.viol):
                 complete = total is not None and n_done >= total
                 if not complete:
                     break
